@@ -463,7 +463,15 @@ func reachThreaded(fn *ssa.Function, g guardSpec) (limit map[*ssa.BasicBlock]int
 		return reachUnguarded(fn, removed, g.afters), len(removed), d
 	}
 	guardEdgeSeen := map[edge]bool{}
+	helper, hdescr := helperGuardEdges(fn, g)
+	descr = append(descr, hdescr...)
+	for e := range helper {
+		guardEdgeSeen[e] = true
+	}
 	limit, capped := ti.explore(fn, aftersBarrier(g.afters), func(e edge, cands []Atom) bool {
+		if helper[e] {
+			return true
+		}
 		a, ok := satisfiesAny(g, cands)
 		if ok && !guardEdgeSeen[e] {
 			guardEdgeSeen[e] = true
